@@ -8,7 +8,7 @@
 From Coq Require Import List NArith Bool Arith.
 From Lib Require Import SyncSkel LTS.
 From Model Require Import C14_Events C15_Shutdown.
-From Proofs Require Import C14_Events C15_Invariants C15_Shutdown.
+From Proofs Require Import C14_Events C15_Invariants C15_Waits C15_Shutdown.
 From Gen Require Import Gen_Sync_dagsync.
 Import ListNotations.
 Local Close Scope string_scope.
@@ -38,6 +38,40 @@ Theorem internal_step_decreases : forall fx rc cap s l s',
   total s' < total s \/ (total s' = total s /\ close_rank (co s') < close_rank (co s)).
 Proof. exact Proofs.C15_Shutdown.internal_step_decreases. Qed.
 Print Assumptions internal_step_decreases.
+
+(* The per-publisher layer (asyncMutex, semaphore, syncMutex) is not in the model.  With it
+   as an arbitrary restriction `avail` of the schedules that (H1) only ever holds back a sync
+   goroutine at one of its lock points and (H2) is itself deadlock-free (if a goroutine is held
+   back at a lock point, some sync goroutine is past its lock points or can go on: what
+   Properties_C08.no_deadlock and the lock order give), Close still never gets stuck and
+   still terminates, using available steps only. *)
+Theorem close_never_stuck_layer : forall (fx rc : bool) (cap : nat) (avail : st -> label -> bool),
+  (forall s l, avail s l = false ->
+     exists t c th, l = Step t c /\ threads s t = Some th /\ lock_point th = true) ->
+  (forall s t th, lreach fx rc cap avail s -> threads s t = Some th -> lock_point th = true ->
+     can_step fx avail s t = false ->
+     exists t' th', threads s t' = Some th' /\
+       (sync_running th' = true \/ (lock_point th' = true /\ can_step fx avail s t' = true))) ->
+  forall s r0, lreach fx rc cap avail s -> once s = ORunning r0 -> lprogress fx avail s.
+Proof. exact Proofs.C15_Shutdown.close_never_stuck_layer. Qed.
+Print Assumptions close_never_stuck_layer.
+
+Theorem close_terminates_layer : forall (fx rc : bool) (cap : nat) (avail : st -> label -> bool),
+  (forall s l, avail s l = false ->
+     exists t c th, l = Step t c /\ threads s t = Some th /\ lock_point th = true) ->
+  (forall s t th, lreach fx rc cap avail s -> threads s t = Some th -> lock_point th = true ->
+     can_step fx avail s t = false ->
+     exists t' th', threads s t' = Some th' /\
+       (sync_running th' = true \/ (lock_point th' = true /\ can_step fx avail s t' = true))) ->
+  forall s, lreach fx rc cap avail s -> once s <> ONot ->
+  exists ls s', Forall (fun l => int_label l = true) ls /\ run (lstep fx avail) s ls = Some s' /\ once s' = ODone.
+Proof. exact Proofs.C15_Shutdown.close_terminates_layer. Qed.
+Print Assumptions close_terminates_layer.
+
+(* every safety theorem below holds for the restricted system too: its runs are runs *)
+Theorem lreach_reach : forall fx rc cap avail s, lreach fx rc cap avail s -> reach fx rc cap s.
+Proof. exact Proofs.C15_Shutdown.lreach_reach. Qed.
+Print Assumptions lreach_reach.
 
 (* Once: at most one goroutine ever runs doClose, nothing is closed twice (no panic), and
    after Close returned nobody is inside doClose *)
